@@ -15,11 +15,7 @@ namespace Model
 open Py
 open Generated (Style)
 
-/-- `sorted(strings)` (code point order, stable insertion sort) -/
-def insertSorted (x : Text) : List Text → List Text
-  | [] => [x]
-  | y :: ys => if textLt x y then x :: y :: ys else y :: insertSorted x ys
-def sortTexts (l : List Text) : List Text := l.foldr insertSorted []
+-- `sortTexts` (`sorted(strings)`) is defined in Model/Copyright.lean: `merge_copyright_lines` sorts as well
 
 /-- set union on duplicate-free lists -/
 def unionTexts (a b : List Text) : List Text := dedup (a ++ b)
